@@ -169,6 +169,37 @@ Proof.
   split; [apply valid_url_b_sound; vm_compute; reflexivity|]. repeat split; vm_compute; reflexivity.
 Qed.
 
+(** * URLs with an explicit prefix for the default locale ("/en/about" with default en).
+    The router accepts and reads such a URL as locale en; leaving it must rewrite that prefix like any
+    other one ("/fr/a-propos", not "/fr/en/about").  The statement holds for every locale [a] whose
+    name is spelled in the URL; the result is in canonical form (no prefix for the default locale). *)
+Theorem C14_explicit_prefix_frame : forall names dflt base bsegs t a b segs path search hash,
+  valid_url_explicit names t a b segs -> base_ok base bsegs -> path_denotes_explicit names bsegs a segs path ->
+  get_new_path names dflt base (tabs_of (length names) t) path search hash b (Some a)
+  = Ok (render_path (bsegs ++ prefix_of names dflt b ++ expected_segs (length names) t a b segs) ++ url_suffix search hash).
+Proof. exact switch_explicit. Qed.
+
+Theorem C14_explicit_prefix_history : forall names dflt base bsegs t by_path l ls a segs path,
+  valid_url_explicit names t a l segs ->
+  hist_valid names dflt t l (expected_segs (length names) t a l segs) ls ->
+  base_ok base bsegs -> (by_path = true -> NoDup names) -> path_denotes_explicit names bsegs a segs path ->
+  history names dflt base (tabs_of (length names) t) by_path path (Some a) (l :: ls)
+  = Ok (map (fun ls' => render_path (bsegs ++ prefix_of names dflt (fst ls') ++ snd ls'))
+            (expected_history (length names) t a segs (l :: ls))).
+Proof. exact history_explicit_start. Qed.
+
+Theorem C14_explicit_prefix_spec : forall names dflt base bsegs t a b segs path search hash,
+  valid_url_explicit names t a b segs -> base_ok base bsegs -> path_denotes_explicit names bsegs a segs path ->
+  spec_first_match names dflt bsegs t a b segs search hash
+    (get_new_path names dflt base (tabs_of (length names) t) path search hash b (Some a)) = true.
+Proof. exact spec_explicit_holds. Qed.
+
+(** "/en/about" (default en) switched to fr is "/fr/a-propos"; the locale read from it is en *)
+Example C14_explicit_prefix_example :
+  get_locale_from_path w_names [47; 101; 110; 47; 97; 98; 111; 117; 116] [slash] = Some 0%nat /\
+  get_new_path w_names 0 [slash] (tabs_of 3 w_overlap) [47; 101; 110; 47; 97; 98; 111; 117; 116] [] [] 1 (Some 0%nat) = Ok [47; 102; 114; 47; 97; 45; 112; 114; 111; 112; 111; 115].
+Proof. split; vm_compute; reflexivity. Qed.
+
 (** the algorithms before the repairs (kept as [..._old]) violate the specification on valid inputs:
     "/french/x" read as fr; base path "/foo" not stripped ("/foo/fr/about" -> "/foo/de/fr/about");
     "/english" under the default locale en rewritten to "/fr/glish"; an optional parameter that is
